@@ -223,3 +223,12 @@ func init() {
 		return ro.close()
 	}
 }
+
+func isCompressingKind(k string) bool {
+	for _, x := range compressingKinds {
+		if x == k {
+			return true
+		}
+	}
+	return false
+}
